@@ -5,7 +5,7 @@ import glob, json, os, shutil, subprocess, sys
 from concurrent.futures import ProcessPoolExecutor
 sys.path.insert(0, "/verif")
 TREES = "/tmp/sdt"
-A3 = {"C01", "C03", "C08", "C09", "C11", "C14", "C16", "C17", "C18"}   # properties with a typestate product (A3 / A5)
+A3 = {"C01", "C03", "C08", "C09", "C10", "C11", "C14", "C16", "C17", "C18", "C20"}   # properties with a typestate product (A3 / A5)
 
 
 def one(args):
